@@ -36,7 +36,9 @@ def oraclize(qf: QlassF, element: Any, name="oracle"):
     logic_fun = (fname,) + tuple(qf.to_logicfun()[1:])
 
     fs = f"def {name}(v: {argt_name}) -> bool:\n   return {fname}(v) == {element}"
-    oracle = QlassF.from_function(fs, defs=[logic_fun])
+    oracle = QlassF.from_function(
+        fs, defs=[logic_fun], def_originals={fname: qf.original_f}
+    )
 
     if (
         len(oracle.expressions) == 1
